@@ -32,6 +32,40 @@ def build(m, scale=1.0, node_order=None, delay_jitter=0.0, name='net'):
     return CircuitTemplate(name, nodes=nodes, edges=edges)
 
 
+def pop_layout(m):
+    """populations = kinds (nodes of one kind, in node order)."""
+    pops = {}
+    for i, k in enumerate(m['kind'], start=1):
+        pops.setdefault(k, []).append(i)
+    return pops
+
+
+def build_pop(m, scale=1.0, delay_jitter=0.0, name='popnet'):
+    """The same model as PopulationTemplate / Connectivity objects: one population per kind with per-unit params,
+    one Connectivity per (source population, target population, lag) carrying the weight matrix W[target, source]."""
+    import numpy as np
+    from pyrates import NodeTemplate, CircuitTemplate
+    from pyrates.frontend.template.population import PopulationTemplate, Connectivity
+    ops = _ops()
+    pops = pop_layout(m)
+    populations = {}
+    for k, members in pops.items():
+        node = NodeTemplate(f'p{k}', operators=[ops[k]])
+        populations[f'p{k}'] = PopulationTemplate(f'p{k}', node, len(members), params={
+            f'lin{k}/c': [m['c'][i - 1] / scale for i in members], f'lin{k}/a': [m['a'][i - 1] / scale for i in members],
+            f'lin{k}/x': [float(m['x0'][i - 1]) for i in members]})
+    groups = {}
+    for e in m['edges']:
+        ks, kt = m['kind'][e['s'] - 1], m['kind'][e['t'] - 1]
+        W = groups.setdefault((ks, kt, e['lag']), np.zeros((len(pops[kt]), len(pops[ks]))))
+        W[pops[kt].index(e['t']), pops[ks].index(e['s'])] += e['w'] / scale
+    conns = []
+    for (ks, kt, lag), W in groups.items():
+        conns.append(Connectivity(f'p{ks}/lin{ks}/x', f'p{kt}/lin{kt}/u', W,
+                                  delays=((lag + delay_jitter) * scale if lag else None)))
+    return CircuitTemplate(name, populations=populations, connections=conns)
+
+
 def inputs_of(m, scale=1.0, steps=None):
     import numpy as np
     inp = {}
@@ -45,16 +79,19 @@ def inputs_of(m, scale=1.0, steps=None):
 
 
 def run_model(m, cfg, scale=1.0, precision='float64', backend='default', cutoff_shift=0.0, node_order=None,
-              delay_jitter=0.0, decorator=None, **kw):
+              delay_jitter=0.0, decorator=None, form='nodes', **kw):
     """Returns dict(index=[...], rows=[[x_1..x_n] per row]) or dict(exc=type name)."""
     import numpy as np
     warnings.filterwarnings('ignore')
-    circ = build(m, scale, node_order, delay_jitter)
+    circ = build(m, scale, node_order, delay_jitter) if form == 'nodes' else build_pop(m, scale, delay_jitter)
     steps, store = cfg['steps'], cfg['store']
     T, dt, dts = steps * scale, scale, store * scale
     cutoff = max(cfg['cut'] - cutoff_shift, 0) * scale
     inp = inputs_of(m, scale, steps)
-    outs = {f'o{i}': f"n{i}/lin{m['kind'][i - 1]}/x" for i in range(1, m['n'] + 1)}
+    if form == 'nodes':
+        outs = {f'o{i}': f"n{i}/lin{m['kind'][i - 1]}/x" for i in range(1, m['n'] + 1)}
+    else:
+        outs = {f'p{k}': f'p{k}/lin{k}/x' for k in pop_layout(m)}
     extra = dict(kw)
     if decorator is not None:
         extra['decorator'] = decorator
@@ -65,7 +102,23 @@ def run_model(m, cfg, scale=1.0, precision='float64', backend='default', cutoff_
     except Exception as e:
         import traceback
         return dict(exc=type(e).__name__, msg=str(e)[:300], tb=traceback.format_exc()[-800:])
-    rows = np.stack([np.asarray(res[f'o{i}'].values, dtype='float64') for i in range(1, m['n'] + 1)], axis=1)
+    if form == 'nodes':
+        cols = [res[f'o{i}'] for i in range(1, m['n'] + 1)]
+    else:
+        pops = pop_layout(m)
+        where = {i: (k, members.index(i)) for k, members in pops.items() for i in members}
+        bycol = {}
+        for col in res.columns:
+            if isinstance(col, tuple) and all(isinstance(x, str) for x in col) and ''.join(col) in outs:
+                key, unit = ''.join(col), 0     # a plain string key that MultiIndex.from_tuples split into characters
+            elif isinstance(col, tuple):
+                key, unit = col[0], col[1]
+                unit = 0 if (isinstance(unit, str) or unit != unit) else int(unit)   # '' / NaN filler for single columns
+            else:
+                key, unit = col, 0
+            bycol[(key, unit)] = res[col]
+        cols = [bycol[(f'p{where[i][0]}', where[i][1])] for i in range(1, m['n'] + 1)]
+    rows = np.stack([np.asarray(c.values, dtype='float64').reshape(len(res.index)) for c in cols], axis=1)
     return dict(index=[float(t) / scale for t in res.index], rows=rows.tolist())
 
 
